@@ -33,6 +33,10 @@ class WouldDeadlock(BaseException):
     (BaseException: nothing in the stack may catch it -- a thread that blocks never raises.)"""
 
 
+class WouldBlockForever(WouldDeadlock):
+    """queue.Queue.put(block=True) without timeout on a full queue that only this thread could drain"""
+
+
 DEAD = {"flag": False, "in_pdu": False}
 
 
@@ -55,6 +59,28 @@ class FakeLock:
         return self.held
 
 G.Lock = FakeLock
+
+import queue as _queue
+
+
+class FakeQueue(_queue.Queue):
+    """queue.Queue whose blocking put on a full queue / blocking get without timeout on an empty queue is
+    reported instead of hanging (single thread: nobody else will ever make room / put something)"""
+    def put(self, item, block=True, timeout=None):
+        if block and timeout is None and self.maxsize > 0 and self.qsize() >= self.maxsize:
+            if DEAD["in_pdu"]:
+                DEAD["flag"] = True
+            raise WouldBlockForever()
+        return super().put(item, block=block, timeout=timeout)
+
+    def get(self, block=True, timeout=None):
+        if block and timeout is None and self.qsize() == 0:
+            if DEAD["in_pdu"]:
+                DEAD["flag"] = True
+            raise WouldBlockForever()
+        return super().get(block=block, timeout=timeout)
+
+G.Queue = FakeQueue
 
 from scapy.layers.bluetooth import L2CAP_Hdr
 from scapy.layers.bluetooth4LE import BTLE_DATA
@@ -272,8 +298,8 @@ class Rig:
                     # instances, not the receive thread, so the "blocked for ever" mark ends here
                     DEAD["flag"] = False
                     self.connect()
-        except WouldDeadlock:
-            exc = "WouldDeadlock"
+        except WouldDeadlock as e:
+            exc = type(e).__name__
         except Exception as e:  # noqa
             exc = type(e).__name__
         out = self.out
